@@ -24,13 +24,14 @@ import (
 
 	"verifsim/core"
 
+	"github.com/wundergraph/graphql-go-tools/v2/pkg/engine/datasource/graphql_datasource"
 	"github.com/wundergraph/graphql-go-tools/v2/pkg/engine/resolve"
 	"github.com/wundergraph/graphql-go-tools/v2/pkg/simrt"
 )
 
 func init() { register(&World{Name: "sub", Run: runSUB}) }
 
-type subKey struct{ input, hdr int }
+type subKey struct{ input, hdr, init int }
 
 type subCtxKey struct{}
 
@@ -211,17 +212,34 @@ func (s *subSource) HashTriggerInput(input []byte, xxh *xxhash.Digest) error {
 }
 
 func (s *subSource) Start(ctx *resolve.Context, headers http.Header, input []byte, updater resolve.SubscriptionUpdater) error {
-	e := s.env
-	in := -1
-	if i := strings.Index(string(input), `"topic":`); i >= 0 {
-		in, _ = strconv.Atoi(string(input[i+8 : i+9]))
+	return s.env.startInstance(ctx, parseSubKey(string(input), headers), updater)
+}
+
+// parseSubKey reads the identity of an upstream subscription from what the source was given.
+func parseSubKey(input string, headers http.Header) subKey {
+	k := subKey{input: -1}
+	if i := strings.Index(input, "ev(topic:"); i >= 0 {
+		k.input, _ = strconv.Atoi(input[i+9 : i+10])
 	}
-	hdr := 0
 	if h := headers.Get("Authorization"); h != "" {
-		hdr, _ = strconv.Atoi(strings.TrimPrefix(h, "token-"))
+		k.hdr, _ = strconv.Atoi(strings.TrimPrefix(h, "token-"))
 	}
+	if i := strings.Index(input, `"token":"t`); i >= 0 {
+		k.init, _ = strconv.Atoi(input[i+10 : i+11])
+	}
+	return k
+}
+
+// subRealClient sits under the real graphql_datasource.SubscriptionSource.
+type subRealClient struct{ env *subEnv }
+
+func (c *subRealClient) Subscribe(ctx *resolve.Context, options graphql_datasource.GraphQLSubscriptionOptions, updater resolve.SubscriptionUpdater) error {
+	return c.env.startInstance(ctx, parseSubKey(options.Body.Query+string(options.InitialPayload), options.Header), updater)
+}
+
+func (e *subEnv) startInstance(ctx *resolve.Context, key subKey, updater resolve.SubscriptionUpdater) error {
 	creator, _ := ctx.Context().Value(subCtxKey{}).(int)
-	inst := &srcInstance{idx: len(e.instances), key: subKey{in, hdr}, creator: creator, ctx: ctx, updater: updater, startSeq: e.r.Sim.Tick()}
+	inst := &srcInstance{idx: len(e.instances), key: key, creator: creator, ctx: ctx, updater: updater, startSeq: e.r.Sim.Tick()}
 	e.instances = append(e.instances, inst)
 	e.r.Hist("START i%d key=%v creator=s%d", inst.idx, inst.key, creator)
 	// "not shared" oracle (C13): a live instance with a settled subscriber already serves this key.
@@ -382,7 +400,7 @@ func subPlan(src resolve.SubscriptionDataSource, topic int, filtered bool) *reso
 			Source:     src,
 			SourceName: "events",
 			InputTemplate: resolve.InputTemplate{Segments: []resolve.TemplateSegment{{SegmentType: resolve.StaticSegmentType,
-				Data: []byte(fmt.Sprintf(`{"url":"ws://events","body":{"query":"subscription{ev}","topic":%d}}`, topic))}}},
+				Data: []byte(fmt.Sprintf(`{"url":"ws://events","body":{"query":"subscription{ev(topic:%d)}"}}`, topic))}}},
 			PostProcessing: resolve.PostProcessingConfiguration{SelectResponseDataPath: []string{"data"}, SelectResponseErrorsPath: []string{"errors"}},
 		},
 		Response: &resolve.GraphQLResponse{
@@ -407,7 +425,12 @@ func runSUB(r *core.Run) {
 	var src resolve.SubscriptionDataSource = &subSource{env: e}
 	if e.hook {
 		src = &subSourceHook{subSource{env: e}}
+	} else if W.Prob(0.5) {
+		// the real GraphQL subscription source (trigger identity, option parsing) over a stub client
+		src = graphql_datasource.SimNewSubscriptionSource(&subRealClient{env: e})
+		r.Probe("real_graphql_subscription_source")
 	}
+	useInit := W.Prob(0.35)
 	nSubs := 1 + W.Weighted([]int{2, 4, 3, 2})
 	nKeys := 1 + W.Weighted([]int{3, 2})
 	useHdr := W.Prob(0.4)
@@ -437,6 +460,9 @@ func runSUB(r *core.Run) {
 		if useHdr {
 			s.key.hdr = W.Intn(2)
 		}
+		if useInit {
+			s.key.init = W.Intn(3)
+		}
 		if W.Prob(0.3) {
 			s.filterPar = W.Intn(2)
 		}
@@ -458,6 +484,9 @@ func runSUB(r *core.Run) {
 			rc := resolve.NewContext(cctx)
 			rc.ExecutionOptions.SendHeartbeat = s.heartbeat
 			rc.SubgraphHeadersBuilder = sfHeaders{set: s.key.hdr}
+			if s.key.init > 0 {
+				rc.InitialPayload = []byte(fmt.Sprintf(`{"token":"t%d"}`, s.key.init))
+			}
 			if s.filterPar >= 0 {
 				rc.Variables = astjson.MustParse(fmt.Sprintf(`{"p":%d}`, s.filterPar))
 			}
